@@ -71,8 +71,7 @@ def futSetResult (s : State) (k : Nat) (w : Waiter) : State :=
 def priorityValue (s : State) (t : Nat) : Rat := (s.tasks t).prio.getD 0
 /-- `task._holding_locks` -/
 def holdingLocks (s : State) (t : Nat) : List Nat := (s.tasks t).holding
-/-- `task._holding_locks.add(lock)`; the ghost `owns` of the model records the same fact for every
-    kind of task and is maintained by `noteOwned` -/
+/-- `task._holding_locks.add(lock)` -/
 def holdingAdd (s : State) (t k : Nat) : State := s.setTask t { s.tasks t with holding := k :: (s.tasks t).holding }
 /-- `task._holding_locks.remove(lock)` -/
 def holdingRemove (s : State) (t k : Nat) : State :=
@@ -98,9 +97,5 @@ def minOpt (xs : List Rat) : Option Rat := PrioGraph.minList xs
     exhausted (Python has no bound; on acyclic wait-for graphs the bound is never reached,
     `C11.eff_fuel_independent`) -/
 def fuelOutRat (s : State) (t : Nat) : Rat := priorityValue s t
-
-/-- ghost: the model's `owns` list (every task kind) next to `_holding_locks` -/
-def noteOwned (s : State) (t k : Nat) : State := s.setTask t { s.tasks t with owns := k :: (s.tasks t).owns }
-def noteReleased (s : State) (t k : Nat) : State := s.setTask t { s.tasks t with owns := (s.tasks t).owns.erase k }
 
 end Asynkit.Lock
